@@ -41,7 +41,19 @@ type badChanList struct {
 	Z int32
 }
 
-var unsupportedKinds = []string{"chan", "func", "complex64", "complex128", "uintptr", "unsafe.Pointer",
+type namedHandle uintptr
+type namedSig chan int
+type namedCb func()
+type namedCx complex128
+
+type sameNameShort struct{ A int32 }
+type sameNameLong struct {
+	A int32
+	C chan int
+}
+
+var unsupportedKinds = []string{"named uintptr", "named chan", "named func", "named complex128",
+"chan", "func", "complex64", "complex128", "uintptr", "unsafe.Pointer",
 	"nil chan", "nil func", "struct{nil chan}",
 	"struct{chan}", "*struct{chan}", "struct{func}", "struct{[]complex128}", "struct{map[string]func}", "struct{*struct{chan}}", "[]chan", "struct{[]chan}", "map[string]chan", "[]interface{}{chan}"}
 
@@ -60,6 +72,14 @@ func unsupportedValue(kind string) interface{} {
 		return uintptr(77)
 	case "unsafe.Pointer":
 		return unsafe.Pointer(&x)
+	case "named uintptr":
+		return namedHandle(9)
+	case "named chan":
+		return namedSig(make(chan int))
+	case "named func":
+		return namedCb(func() {})
+	case "named complex128":
+		return namedCx(complex(1, 1))
 	case "nil chan":
 		// a channel is of an unrepresentable kind whether or not it is nil
 		return (chan int)(nil)
@@ -209,6 +229,19 @@ func mustFail(v interface{}, nm map[string]string) string {
 		a, _, derr := refcodec.Decode(b)
 		return fmt.Sprintf("ToBytes returned nil error and %d octets %s; under the format they read as %s (%v)", len(b), hexClip(b, 60), shortAV(a), derr)
 	}
+	// refused once, refused again: a rejected value must leave nothing behind in the instance
+	var b1, b2 []byte
+	var e1, e2 error
+	if pv, st := guard(func() {
+		s := hessian.NewSerializer(nil, nm)
+		b1, e1 = s.ToBytes(v)
+		b2, e2 = s.ToBytes(v)
+	}); pv != nil {
+		return fmt.Sprintf("second ToBytes of the same value on one Serializer panicked: %v [%s]", pv, st)
+	}
+	if e1 == nil || e2 == nil {
+		return fmt.Sprintf("ToBytes of the same value twice on one Serializer: errors %v / %v, bytes %s / %s", e1, e2, hexClip(b1, 30), hexClip(b2, 30))
+	}
 	return ""
 }
 
@@ -218,6 +251,15 @@ func TestC13(t *testing.T) {
 	for _, k := range unsupportedKinds {
 		if msg := mustFail(unsupportedValue(k), nil); msg != "" {
 			directFail(t, "C13", map[string]interface{}{"kind": k, "position": "top level"}, "C13 top-level %s: %s", k, msg)
+		}
+		r.Eval()
+	}
+	// two Go types registered under one class name, the second one longer and holding a channel
+	{
+		v := []interface{}{&sameNameShort{A: 1}, &sameNameLong{A: 2, C: make(chan int)}}
+		nm := map[string]string{"sameNameShort": "x.Same", "sameNameLong": "x.Same"}
+		if msg := mustFail(v, nm); msg != "" {
+			directFail(t, "C13", map[string]interface{}{"kind": "chan in the longer of two types sharing a class name"}, "C13 two types under one class name: %s", msg)
 		}
 		r.Eval()
 	}
